@@ -241,7 +241,8 @@ def c14(tier, replay):
     shutil.rmtree(d, ignore_errors=True)
     if not replay:
         R.need(totals, ["eval"])
-    run.cov["rule"] = ("single-piece basis (12 pieces x 64 squares x phase ballast 0/12/24 x both sides to move, exhaustive), maximal material "
+    run.cov["rule"] = ("pairs of a pawn with any other man (neighbouring squares exhaustive, elsewhere sampled), boards reached by the generator / text applier against a fresh object, "
+                       "single-piece basis (12 pieces x 64 squares x phase ballast 0/12/24 x both sides to move, exhaustive), maximal material "
                        "(K+9Q+2R+2B+2N) against a lone king and against the same, random placements with up to 32 men (legal or not); TLC checks "
                        "the harness's mirror against Chess!Mirror, e(mirror) = e, e(other side) = -e, insensitivity to rights / ep / descriptor / "
                        "key / king cache, |e| < 50000 for material within the stated bound")
